@@ -98,6 +98,14 @@ CHECKS.update({
                 technique="TLA+ state machine + laws checked by TLC; every model run replayed on all cursor constructions of the library"),
 })
 
+CHECKS.update({
+    "C13": dict(cat="exploration", ref="DESIGN.md 5/C13", note="Trusted base: TLC; the value table and the per-type comparison rules of the harness (cmd/vreplay/bucket.go). What TLA+ contributes is the stateful part -- frame condition, scalar/nested clashes, write sequences -- and the codec format; byte-level fidelity is checked for the table's tokens only.",
+                text="Bucket.tla models checker-restricted writes with the frame condition as an action property; TLC emits all bounded write sequences, executed with the "
+                     "real setters and read back in later transactions through every getter. Codec.tla states the compound-key format and its round trip (TLC), "
+                     "compared byte for byte with the real codec at the varint and size boundaries.",
+                technique="TLA+ models of the typed bucket and of the compound-key codec; TLC-enumerated write sequences / lists replayed on TypedBucket and Encode/DecodeStringSlice"),
+})
+
 NOT_YET = {
     "C01": "check under construction in this session (Query.tla); not claimed until it runs clean on the unchanged tree",
     "C02": "check under construction (Query.tla / ScanAlgo.tla)",
